@@ -14,7 +14,7 @@ TRUSTED = ['the rotation returned by get_rotation_matrix is recorded from the re
            'NumPy array arithmetic in superpose_selection is compared with exact rational arithmetic within 1e-9']
 RULE = ('targets of 2 chains (3-8 residues each, backbone + side chains), mobiles derived by deformation, rigid displacement (exact floating '
         'copy), deletion of atoms/residues on either side (equal or unequal selection sizes) and record permutation; selections by chain, '
-        'residue list, atom names, backbone-only or not; both methods; export on/off with path inputs (directory snapshot). Non-trivial: '
+        'residue list, atom names, backbone-only or not; both methods; export on/off with path inputs (directory snapshot), export off also as 0 / np.False_ / None / empty string; objects built from a file and moved in memory; selections of exactly two atoms. Non-trivial: '
         'the mobile differs from the target by more than a deformation (displacement, deletion or permutation).')
 
 def rows_vec(rows):
@@ -67,28 +67,36 @@ def run_case(ctx, pdb2sql, case):
     target_atoms, mobile_atoms = case['target'], case['mobile']
     kwargs = dict(case['kwargs'])
     d0 = set(os.listdir('.'))
-    use_paths = case['export']
+    use_paths = case['export'] or bool(case.get('objects_from_files'))
     if use_paths:
         tp = gen_complex.write_pdb(os.path.join(ctx.scratch, 'tgt.pdb'), target_atoms)
         mp = gen_complex.write_pdb(os.path.join(ctx.scratch, 'mob.pdb'), mobile_atoms)
         d0 = set(os.listdir('.'))
         tdb = pdb2sql.pdb2sql(tp); mdb = pdb2sql.pdb2sql(mp)
         t_text = open(tp).read()
+        if case.get('objects_from_files') and case.get('mobile_exact') is not None:
+            # the object was built from a file and then moved in memory: what it holds NOW is the structure
+            for i, c in enumerate('xyz'):
+                mdb.update_column(c, [float(v[i]) for v in case['mobile_exact']])
     else:
         tdb = make_db(pdb2sql, target_atoms)
         mdb = make_db(pdb2sql, mobile_atoms, case.get('mobile_exact'))
     t_before = canon_rows(tdb.get('*')); m_before = canon_rows(mdb.get('*'))
+    export_arg = case['export']
+    if not case['export'] and case.get('export_carrier'):
+        # "no export" said with another false value than the object False
+        export_arg = {'int0': 0, 'npfalse': np.False_, 'npbool0': np.bool_(0), 'none': None, 'empty': ''}[case['export_carrier']]
     sup.get_rotation_matrix = wrapper
     try:
         try:
             if use_paths and case.get('by_path'):
                 # mobile and target given as file names (always the same two names, rewritten for every case of the run)
-                ret = pdb2sql.superpose(mp, tp, method=case['method'], only_backbone=case['only_backbone'], export=case['export'], **kwargs)
+                ret = pdb2sql.superpose(mp, tp, method=case['method'], only_backbone=case['only_backbone'], export=export_arg, **kwargs)
                 mdb._close(); mdb = ret
                 if open(tp).read() != t_text:
                     raise AssertionError('the target FILE was modified')
             else:
-                ret = pdb2sql.superpose(mdb, tdb, method=case['method'], only_backbone=case['only_backbone'], export=case['export'], **kwargs)
+                ret = pdb2sql.superpose(mdb, tdb, method=case['method'], only_backbone=case['only_backbone'], export=export_arg, **kwargs)
             err = None
         except Exception as e:
             ret, err = None, exc_class(e) + ': ' + str(e)[:200]
@@ -143,7 +151,8 @@ def run_case(ctx, pdb2sql, case):
             return out, ('impl_vs_spec', dict(why='atoms were not all moved by one and the same rigid motion', atom=[float(x) for x in o]))
     # optimal on the identity-matched shared selection
     P_id = [[Q(x) for x in v] for v in shared[0]]; Q_id = [[Q(x) for x in v] for v in shared[1]]
-    if len(P_id) >= 3:
+    if len(P_id) >= 2:
+        # (two pairs: the optimal rotation is not unique, the minimum RMSD on the fitted pairs is)
         # where did the shared mobile atoms go?
         key = {tuple(o): nw for o, nw in zip(map(tuple, old), new_impl)}
         moved = [key[tuple(p)] for p in P_id]
@@ -244,6 +253,20 @@ def gen_case(rng):
         feats.add('mutated-residue')
     if case['export'] and rng.random() < 0.6:
         case['by_path'] = True; feats.add('inputs-by-file-name')
+    if not case['export'] and rng.random() < 0.3:
+        case['export_carrier'] = rng.choice(['int0', 'npfalse', 'npbool0', 'none', 'empty']); feats.add('no-export-as-' + case['export_carrier'])
+    if not case['export'] and 'mobile_exact' in case and rng.random() < 0.5:
+        case['objects_from_files'] = True; feats.add('object-built-from-file-then-moved')
+    if not case['only_backbone'] and rng.random() < 0.12:
+        # a selection of exactly two atoms of one residue (or the CA atoms of two residues)
+        ress = sorted({(a['chainID'], a['resSeq']) for a in target} & {(a['chainID'], a['resSeq']) for a in mobile})
+        if len(ress) >= 2:
+            if rng.random() < 0.5:
+                ch, n1 = rng.choice(ress); sel = {'chainID': ch, 'resSeq': [n1], 'name': rng.choice([['CA', 'C'], ['N', 'O'], ['CA', 'N']])}
+            else:
+                ch = rng.choice(sorted({c for c, _ in ress})); two = [n_ for c, n_ in ress if c == ch][:2]
+                sel = {'chainID': ch, 'resSeq': two, 'name': ['CA']}
+            feats.add('two-atom-selection')
     case.update({'target': target, 'mobile': mobile, 'kwargs': sel})
     feats.add('method-' + case['method'])
     if case['export']: feats.add('export')
